@@ -162,6 +162,9 @@ def tlc(spec_dir, module, cfg, work, env=None, workers=8, simulate=None, depth=N
     m2 = re.search(r"Error: Action property (\w+) is violated", out)
     if m2:
         r.violated = m2.group(1)
+    m3 = re.search(r"Error: Temporal property (\w+) was violated", out)
+    if m3:
+        r.violated = r.violated or m3.group(1)
     if "Temporal properties were violated" in out:
         r.violated = r.violated or "TemporalProperty"
     if "Error: Deadlock reached" in out:
